@@ -159,3 +159,10 @@ pub fn ptr_off(outer: &[u8], inner: &[u8]) -> Option<usize> {
 		None
 	}
 }
+
+/// Debug output is a route out of the text (C14): whatever decoration the type adds, the text
+/// must be shown, escaped as Rust's own `Debug` for `str` escapes it.
+pub fn debug_shows(debug: &str, text: &str) -> bool {
+	let quoted = format!("{:?}", text);
+	debug.contains(&quoted[1..quoted.len() - 1])
+}
